@@ -236,11 +236,28 @@ impl TransactableStorage<BlockHeight> for RecStore {
 
 pub type Dump = BTreeMap<(u32, Vec<u8>), Vec<u8>>;
 
+/// Raw dump of the backing store. `all == false` restricts it to the columns that the
+/// importer or this harness ever write (used on RocksDB, where touching a column family
+/// creates it with an fsync).
 #[allow(deprecated)]
-pub fn dump(store: &Inner) -> Dump {
+pub fn dump_cols(store: &Inner, all: bool) -> Dump {
+    const USED: [Column; 9] = [
+        Column::Metadata,
+        Column::ContractsState,
+        Column::Coins,
+        Column::Transactions,
+        Column::FuelBlocks,
+        Column::FuelBlockMerkleData,
+        Column::FuelBlockMerkleMetadata,
+        Column::Messages,
+        Column::FuelBlockConsensus,
+    ];
     let mut d = BTreeMap::new();
     for c in 0u32..64 {
         if let Ok(col) = Column::try_from(c) {
+            if !all && !USED.contains(&col) {
+                continue;
+            }
             for kv in store.iter_store(col, None, None, IterDirection::Forward) {
                 let (k, v) = kv.expect("raw iteration of the backing store failed");
                 d.insert((c, k), v.to_vec());
